@@ -16,12 +16,13 @@ import (
 
 // zzCtx is a minimal context: done channel + error, cancelled by the harness.
 type zzCtx struct {
-	done chan struct{}
-	err  error
+	done     chan struct{}
+	err      error
+	deadline time.Time // optional; the harness decides when (if ever) the context ends
 }
 
 func zzNewCtx() *zzCtx                                { return &zzCtx{done: make(chan struct{})} }
-func (c *zzCtx) Deadline() (time.Time, bool)          { return time.Time{}, false }
+func (c *zzCtx) Deadline() (time.Time, bool)          { return c.deadline, !c.deadline.IsZero() }
 func (c *zzCtx) Done() <-chan struct{}                { return c.done }
 func (c *zzCtx) Err() error                           { return c.err }
 func (c *zzCtx) Value(key any) any                    { return nil }
